@@ -134,20 +134,27 @@ class HTTPFile(io.IOBase):
             start = index*self._chunk_size
             stop = min((index+1)*self._chunk_size, self.length)
             self.cache[index] = self.download_range(start, stop)
+        # Fetch the chunk before cleaning up the cache, because the
+        # requested chunk itself might get removed from the cache.
+        chunk = self.cache[index]
         if len(self.cache) > self._keep_chunks:
             for kk in self.cache.keys():
                 if kk != 0:  # always keep the first chunk
                     self.cache.pop(kk)
                     break
-        return self.cache[index]
+        return chunk
 
     def read(self, size=-1, /):
         """Cache-supported read operation (file object)"""
-        data = self.read_range_cached(self._pos, self._pos + size)
-        if size > 0:
-            self._pos += size
+        if size is None or size < 0:
+            # read until the end of the file
+            stop = self.length
         else:
-            self._pos = self.length
+            # never read beyond the end of the file
+            stop = min(self._pos + size, self.length)
+        start = min(self._pos, stop)
+        data = self.read_range_cached(start, stop)
+        self._pos += len(data)
         return data
 
     def read_range_cached(self, start, stop):
